@@ -95,6 +95,10 @@ type Op struct {
 	Cand   int   `json:"cand,omitempty"`
 	Parent int   `json:"parent,omitempty"`
 	W      []WOp `json:"w,omitempty"`
+	// Tree > 0: the commit is made through the long-lived tree object of that slot (created on
+	// first use from Parent, reused as long as the root it committed last is the last finalized
+	// state root; dropped on reopen). Tree == 0: a fresh tree per commit.
+	Tree int `json:"tree,omitempty"`
 
 	// finalize: candidate ids of version Ver that are finalized.
 	Final []int `json:"final,omitempty"`
@@ -127,6 +131,9 @@ func (o Op) String() string {
 		var ws []string
 		for _, w := range o.W {
 			ws = append(ws, w.String())
+		}
+		if o.Tree > 0 {
+			p = fmt.Sprintf("%s via kept tree T%d", p, o.Tree)
 		}
 		return fmt.Sprintf("commit(v%d %s#%d from %s: %s)", o.Ver, t, o.Cand, p, strings.Join(ws, " "))
 	case KFinalize, KMPFinal:
@@ -195,6 +202,12 @@ type GenConfig struct {
 	// v is pruned) and calls NodeDB.Compact() after prunes: what the storage engine may
 	// discard at compaction depends on the discard timestamp set by Prune.
 	Restart bool
+	// KeptTree commits the first state candidate of every version through one long-lived tree
+	// object (as the consensus layer does) and, in about a third of the versions, lets a second,
+	// fresh tree commit the identical root in the same version (the kept tree's writes are then
+	// remove+re-insert / insert+remove sequences or a differently ordered equivalent), finalizes
+	// that root and keeps using the long-lived tree afterwards.
+	KeptTree bool
 	// Clean avoids the shapes that are already known to damage the hashed badger backend
 	// (DESIGN.md section 6 D4/D5 and the committed empty root), so that such histories run to
 	// their end on badger too: no candidate re-creates a pair that its parent already has, IO
@@ -477,10 +490,49 @@ func Generate(rng *rand.Rand, cfg GenConfig) *History {
 		var stateW [][]WOp
 		var stateContents []map[string]string
 		var stateIDs []int
+		twin := -1 // index (in stateIDs) of the root committed twice
 		for s := 0; s < nState; s++ {
 			w := g.stateCandidate(g.state, stateW)
 			base := g.state
 			op := Op{Kind: KCommit, Ver: ver, Type: TState, Cand: cand, Parent: ParentPrev}
+			if cfg.KeptTree && s == 0 {
+				op.Tree = 1
+				if rng.IntN(3) == 0 {
+					// The kept tree makes writes whose net effect a fresh tree reaches differently.
+					keys := sortedKeys(base)
+					switch c := rng.IntN(3); {
+					case c == 0 || len(keys) == 0:
+						k := append([]byte("zz"), g.key()...)
+						w = []WOp{{K: k, V: g.val()}, {Del: true, K: k}}
+					case c == 1:
+						k := keys[rng.IntN(len(keys))]
+						w = []WOp{{Del: true, K: []byte(k)}, {K: []byte(k), V: []byte(base[k])}}
+					default:
+						k := append([]byte("zz"), g.key()...)
+						w = append([]WOp{{K: k, V: g.val()}}, w...)
+						w = append(w, WOp{Del: true, K: k})
+					}
+					op.W = w
+					content := applyW(base, w)
+					tw := netW(base, w)
+					if cfg.Clean && len(content) == 0 {
+						extra := WOp{K: g.key(), V: g.val()}
+						op.W, tw = append(op.W, extra), append(tw, extra)
+						content = applyW(base, op.W)
+					}
+					// kept-tree candidate
+					stateW = append(stateW, op.W)
+					stateContents = append(stateContents, content)
+					stateIDs = append(stateIDs, cand)
+					ops = append(ops, op)
+					cand++
+					// twin committed by a fresh tree
+					ops = append(ops, Op{Kind: KCommit, Ver: ver, Type: TState, Cand: cand, Parent: ParentPrev, W: tw})
+					twin = len(stateIDs) - 1
+					cand++
+					continue
+				}
+			}
 			if cfg.BadgerOnly && len(stateIDs) > 0 && rng.IntN(4) == 0 {
 				// same-version child of an earlier candidate (badger only)
 				pi := rng.IntN(len(stateIDs))
@@ -528,6 +580,9 @@ func Generate(rng *rand.Rand, cfg GenConfig) *History {
 
 		// Finalize: one state candidate and at most one IO candidate.
 		fi := rng.IntN(len(stateIDs))
+		if twin >= 0 {
+			fi = twin
+		}
 		final := []int{stateIDs[fi]}
 		if len(ioIDs) > 0 && rng.IntN(8) != 0 {
 			final = append(final, ioIDs[rng.IntN(len(ioIDs))])
